@@ -210,3 +210,22 @@ class Threads(Harness):
 
 
 HARNESSES = [Histories(), Threads()]
+
+# ---- deductive: a new Domain owns all of its containers and leaves the module-level default table alone ------------------------------
+CONTRACTS["models.pddl_domain:Domain.__init__"] = dict(
+    prop="C07", params={"self": ("ref", "Domain")}, returns="none",
+    globals={"DEFAULT_TYPES": ("ref", "dict_PDDLType", "G_DEFAULT_TYPES")},
+    requires=["allocated(self)", "allocated(DEFAULT_TYPES)"],
+    ensures=[
+        # five new dictionaries and a new list, pairwise different objects, none of them the default table
+        "fresh(self.actions)", "fresh(self.constants)", "fresh(self.functions)", "fresh(self.types)", "fresh(self.predicates)", "fresh(self.requirements)",
+        "self.types is not DEFAULT_TYPES",
+        "self.actions != self.constants and self.actions != self.functions and self.actions != self.predicates and self.constants != self.functions "
+        "and self.constants != self.predicates and self.functions != self.predicates",
+        # the types start as a copy of the defaults (same keys, same entries); everything else starts empty
+        "self.types.keys() == DEFAULT_TYPES.keys()", "forall_str(lambda k: self.types[k] is DEFAULT_TYPES[k])",
+        "len(self.actions.keys()) == 0 and len(self.constants.keys()) == 0 and len(self.functions.keys()) == 0 and len(self.predicates.keys()) == 0",
+        # the default table itself is not written
+        "DEFAULT_TYPES.keys() == old(DEFAULT_TYPES.keys())", "forall_str(lambda k: DEFAULT_TYPES[k] is old(DEFAULT_TYPES[k]))"],
+    raises={}, modifies=["Domain.actions[self]", "Domain.constants[self]", "Domain.functions[self]", "Domain.types[self]", "Domain.predicates[self]",
+                         "Domain.requirements[self]"])
